@@ -166,12 +166,14 @@ func drivePT(p *Plan, shard int, w *Writer, t *codec.Table) {
 			maxS = 1
 		}
 		subs := subsets(len(d), p.Seed, id, maxS)
+		tno := 0
 		for si, sub := range subs {
 			for ti, c := range targets {
+				tno++
 				if si > 0 && ti >= 4 { // sub-diffs get fewer targets
 					break
 				}
-				w.Emit(shard, Rec{"sess": id, "op": "Target", "sub": sub, "c": c})
+				w.Emit(shard, Rec{"sess": id, "op": "Target", "t": tno, "sub": sub, "c": c})
 				for k := 1; k <= len(sub); k++ {
 					// fresh diff every time: Patch may retain or change what it is given
 					d2, r2 := v.Diff(a, b, o, false)
